@@ -266,7 +266,7 @@ def check(pid, tier, seed):
             cases = gen_cases(P, seed, tier)
             results = run.execute(cases)
             if results is None:
-                broken.append("case evaluation failed: " + run.eval_err[-1500:])
+                broken.append("case evaluation failed: " + run.eval_err[:1500] + " ... " + run.eval_err[-1500:])
                 results = []
         except Exception as e:
             broken.append("harness run failed: %s" % e)
